@@ -179,7 +179,10 @@ func runC04(e *sim.Env) {
 	// reorg notifications
 	type note struct{ tip types.ChainIndex }
 	var notes1, notes2 []note
-	cancel1 := s.cm.OnReorg(func(idx types.ChainIndex) { notes1 = append(notes1, note{idx}) })
+	cancel1 := s.cm.OnReorg(func(idx types.ChainIndex) {
+		notes1 = append(notes1, note{idx})
+		sim.YieldPoint("listener") // listeners run outside the manager's lock: let others in
+	})
 	var args2 []types.ChainIndex
 	s.cm.OnReorg(func(idx types.ChainIndex) {
 		// a listener may call back into the manager
@@ -187,6 +190,7 @@ func runC04(e *sim.Env) {
 		s.cm.BestIndex(t.Height)
 		notes2 = append(notes2, note{t})
 		args2 = append(args2, idx)
+		sim.YieldPoint("listener")
 	})
 	cancelled := false
 
@@ -220,14 +224,20 @@ func runC04(e *sim.Env) {
 		// submission (and its reorg) is in progress; the seeded scheduler decides
 		// every Lock / Unlock of the manager
 		var cps []*concurrentPoll
-		if sim.LockYields && len(subs) > 0 && e.Chance(1, 3) {
+		// ... and, in 1 of 2 of those, another goroutine registers and cancels
+		// short-lived listeners meanwhile
+		churn := 0
+		if (sim.LockYields || sim.RaceBuild) && len(subs) > 0 && e.Chance(1, 3) {
 			for _, sub := range subs {
 				if len(cps) < 3 && e.Chance(1, 2) {
 					cps = append(cps, &concurrentPoll{sub: sub, start: sub.sh.idx, max: e.Range(1, 8), delay: e.Range(0, 10)})
 				}
 			}
+			if e.Chance(1, 2) {
+				churn = e.Range(1, 4)
+			}
 		}
-		if len(cps) > 0 {
+		if len(cps) > 0 || churn > 0 {
 			var crash string
 			e.WithSchedule(400, func() {
 				var wg sync.WaitGroup
@@ -254,6 +264,19 @@ func runC04(e *sim.Env) {
 						}
 						cp.rus, cp.aus, cp.err = s.cm.UpdatesSince(cp.start, cp.max)
 					})
+				}
+				if churn > 0 {
+					guard(func() {
+						for i := 0; i < churn; i++ {
+							sim.YieldPoint("churn")
+							c1 := s.cm.OnReorg(func(types.ChainIndex) { sim.YieldPoint("churn-listener") })
+							c2 := s.cm.OnPoolChange(func() {})
+							sim.YieldPoint("churn")
+							c1()
+							c2()
+						}
+					})
+					e.Fault("listeners-registered-and-cancelled-during-submission")
 				}
 				wg.Wait()
 			})
